@@ -250,6 +250,8 @@ func (w *verifC12) observeBalances() {
 		for _, a := range w.accts {
 			verifapi.Assert(sameErr(d.IsAccountNode(a, id), s.IsAccountNode(a, id)), "c12.obs.isaccountnode")
 		}
+		// the empty account owns nothing
+		verifapi.Assert(sameErr(d.IsAccountNode("", id), s.IsAccountNode("", id)), "c12.obs.isaccountnode")
 	}
 	for _, a := range w.accts {
 		bal, err := d.GetAccountBalance(a)
